@@ -18,7 +18,7 @@ func init() {
 		Explanation: "Decides that proposal and completion derive the closing transaction from the same inputs (same balance computation, dust limits, scripts and forwarded options), that the two halves of the transaction builder are each other's mirror image (own balance against own dust limit, own script), that the final balances credit the dangling commit fee and the anchors to the opener and charge the closing fee to the payer and fail when negative, that completion marks the channel closed and returns only after the script engine accepted the witness built from (our key, our sig, their key, their sig) against the funding output, and that the legacy negotiation calls the compromise function with (ideal, last sent, remote) in that order, the compromise function moves towards the remote offer in every order region, a proposal above the fee cap is never signed by the opener and completion uses our stored signature for exactly the fee the peer proposed.",
 		NotDecided: []string{
 			"byte-identity of the two sides' transactions (only that each side feeds the builder the mirrored inputs)", "the numeric termination bound of the negotiation",
-			"the RBF cooperative close state machine (its wire messages are covered by C10)", "signature validity (delegated to the script engine call whose dominance is decided)",
+			"the RBF cooperative close state machine beyond the agreement of the options, scripts and fee between the signing and the completing half of each flow", "signature validity (delegated to the script engine call whose dominance is decided)",
 		},
 		Assumptions: commonAssumptions,
 		Engines:     "MIRROR, ROLE, TABLE, PATH, GUARD",
@@ -273,12 +273,14 @@ func runC17(r *an.Run) {
 				case an.Text(as.Lhs[0]) == "initiatorDelta" && as.Tok == token.ADD_ASSIGN:
 					cnt++
 					guarded(o, f, s, an.Truth(an.CallNamed("HasAnchors", an.Param(0)), true, "chanType.HasAnchors()"))
+					onlyGuards(o, f, s, []string{`^chanType\.HasAnchors\(\)$`}, "anchor credit")
 					if rr != "2 * AnchorSize" {
 						o.FailAt(f.ID+"#anchors", s.Where(), "the anchor credit is %s", rr)
 					}
 				case (l == "$p3" || l == "$p4") && as.Tok == token.ADD_ASSIGN:
 					cnt++
 					guarded(o, f, s, an.Truth(an.Param(1), l == "$p3", "isInitiator == "+fmt.Sprint(l == "$p3")))
+					onlyGuards(o, f, s, []string{`^isInitiator$`, `^!\(isInitiator\)$`}, "opener credit")
 					if rr != "initiatorDelta" {
 						o.FailAt(f.ID+"#credit", s.Where(), "the opener is credited %s", rr)
 					}
@@ -286,6 +288,7 @@ func runC17(r *an.Run) {
 					cnt++
 					party := map[string]string{"$p3": "Local", "$p4": "Remote"}[l]
 					guarded(o, f, s, an.Cmp(an.Any(), an.EQ, an.PkgVar("lntypes", party), "payer == lntypes."+party))
+					onlyGuards(o, f, s, []string{`^!?\(?payer == lntypes\.(Local|Remote)\)?$`}, "closing fee charge")
 					if f.Canon(as.Rhs[0]) != "$p2" {
 						o.FailAt(f.ID+"#charge", s.Where(), "the payer is charged %s, expected the closing fee", rr)
 					}
@@ -499,4 +502,6 @@ func runC17(r *an.Run) {
 				}
 			}
 		})
+
+	rbfCloseOptions(r)
 }
